@@ -6,6 +6,6 @@ rm -rf "$t"; mkdir -p "$t"; cp -r /repo/stdnum /repo/online_check "$t"/
 ( cd "$t" && patch -p1 -s < "$d/patch.diff" ) || { echo "patch failed"; exit 2; }
 cd /verif
 for p in "$@"; do
-  SA_REPO="$t" SA_OUT="$t/out" /venv/bin/python -m sa "$p" --tier quick 2>&1 | grep -v "^KNOWN-FINDING\|^    construct" | cut -c1-"${COLS:-260}" | tail -"${TAIL:-6}"
+  SA_REPO="$t" SA_OUT="$t/out" SA_CACHE="$t/cache" /venv/bin/python -m sa "$p" --tier quick 2>&1 | grep -v "^KNOWN-FINDING\|^    construct" | cut -c1-"${COLS:-260}" | tail -"${TAIL:-6}"
 done
 rm -rf "$t"
